@@ -39,3 +39,7 @@
   (ite (fp_lexlargest (fp_mul Y (fp_inv Z))) (fp_mul X (fp_inv Z)) (fp_neg (fp_mul X (fp_inv Z)))))
 ; fpbytesAt(r,o,n,v): the 32 cells of row r from offset o are the canonical big-endian encoding of v
 (define-fun fpbytesAt ((r (Array Int Int)) (o Int) (n Int) (v Fp)) Bool (and (= (select r (+ o 0)) (fp_byte v 0)) (= (select r (+ o 1)) (fp_byte v 1)) (= (select r (+ o 2)) (fp_byte v 2)) (= (select r (+ o 3)) (fp_byte v 3)) (= (select r (+ o 4)) (fp_byte v 4)) (= (select r (+ o 5)) (fp_byte v 5)) (= (select r (+ o 6)) (fp_byte v 6)) (= (select r (+ o 7)) (fp_byte v 7)) (= (select r (+ o 8)) (fp_byte v 8)) (= (select r (+ o 9)) (fp_byte v 9)) (= (select r (+ o 10)) (fp_byte v 10)) (= (select r (+ o 11)) (fp_byte v 11)) (= (select r (+ o 12)) (fp_byte v 12)) (= (select r (+ o 13)) (fp_byte v 13)) (= (select r (+ o 14)) (fp_byte v 14)) (= (select r (+ o 15)) (fp_byte v 15)) (= (select r (+ o 16)) (fp_byte v 16)) (= (select r (+ o 17)) (fp_byte v 17)) (= (select r (+ o 18)) (fp_byte v 18)) (= (select r (+ o 19)) (fp_byte v 19)) (= (select r (+ o 20)) (fp_byte v 20)) (= (select r (+ o 21)) (fp_byte v 21)) (= (select r (+ o 22)) (fp_byte v 22)) (= (select r (+ o 23)) (fp_byte v 23)) (= (select r (+ o 24)) (fp_byte v 24)) (= (select r (+ o 25)) (fp_byte v 25)) (= (select r (+ o 26)) (fp_byte v 26)) (= (select r (+ o 27)) (fp_byte v 27)) (= (select r (+ o 28)) (fp_byte v 28)) (= (select r (+ o 29)) (fp_byte v 29)) (= (select r (+ o 30)) (fp_byte v 30)) (= (select r (+ o 31)) (fp_byte v 31))))
+; dyadic part of the table-driven square root: dyadic(z) = z lies in the subgroup of 2^32-th roots of unity;
+; dyadic_sq(z) = z is a square inside that subgroup (its discrete logarithm is even)
+(declare-fun dyadic (Fp) Bool)
+(declare-fun dyadic_sq (Fp) Bool)
